@@ -81,12 +81,12 @@ pub fn fu_ctor(n: usize) {
     gh::reset();
     let mut f: FuturesUnordered<Fut> = FuturesUnordered::with_capacity(n);
     vassert!(f.len() == 0 && f.is_empty(), "C15:fresh unbounded collection not empty");
-    vassert!(f.capacity() == n, "C15:with_capacity(n).capacity() != n");
+    vassert!(f.capacity() >= n, "C15:with_capacity(n).capacity() < n");
     {
         let (groups, rem, cursor) = f.verif_parts();
         vassert!(rem == 0 && cursor == 0 && groups.len() <= 1, "C15:with_capacity built an inconsistent group list");
         // growth doubles the last group's capacity: a group of capacity 0 can never grow
-        vassert!(groups.len() == 0 || groups[0].capacity() == n && n > 0, "C15:with_capacity built a group of capacity 0 (pushes can never be accepted)");
+        vassert!(groups.len() == 0 || groups[0].capacity() >= n && groups[0].capacity() > 0, "C15:with_capacity built a group of capacity 0 (pushes can never be accepted)");
     }
     let w = gh::task_waker(0);
     let mut cx = Context::from_waker(&w);
